@@ -15,6 +15,7 @@ import json
 import random
 
 from .. import common as C
+from .. import forms as F
 from .. import gen_graph as G
 from ..oracles import sep_paths as O
 from .c04 import rand_admg
@@ -25,6 +26,7 @@ RULE = ("random ADMGs (0-6 nodes, bidirected chains, isolated nodes, random inse
         "lists x start x stop. A case is non-trivial when the graph has >=3 nodes, at least one pair is separable and at "
         "least one pair is not (within the limit).")
 ASSUMPTIONS = [
+    "argument FORMS (harness/forms.py; chosen deterministically per case, stored in the case, tagged form_*): the default policy omitted / policy=None / an explicit get_topological_policy(graph); max_conditions=None omitted or explicit; return_all and verbose omitted / False / None (both are typed bool | None); graph positional or by keyword; the graph built through every public constructor of NxMixedGraph (only the insertion-order preserving ones where the compared value depends on the topological order); powerset's iterable as list / tuple / dict keys / generator / iterator / map, start and stop positional / keyword / omitted at their defaults. Independence of the form is a runtime clause decided by correspondence + oracle",
     "'true separation in the graph': the theorems ci_sound/ci_complete/ci_unique/ci_minimum/ci_total are parametric in any "
     "separation test that is symmetric and set-valued in C (GoodTest); ci_exact instantiates them with the C04 model and, "
     "through C04's dsep_iff_dsep_canonical (fully proved), states them for d-separation in the canonical latent DAG",
@@ -61,7 +63,35 @@ CORPUS = [
 ]
 
 
+def _slots(case):
+    if case["kind"] == "powerset":
+        sl = {"iterable": ("list", "tuple", "dict_keys", "generator", "iterator", "map"), "call": ("positional", "keyword")}
+        if case["start"] == 0:
+            sl["start"] = ("given", "omitted")
+        if case["stop"] is None:
+            sl["stop"] = ("none", "omitted")
+        return sl
+    order_compared = case["policy"] == "topological" and case["all"]
+    sl = {"ctor": F.CTORS_SAME_ORDER if order_compared else F.CTORS, "call": ("positional", "keyword"),
+          "verbose": ("omitted", "false", "none")}
+    if case["policy"] == "topological":
+        sl["policy"] = ("omitted", "none", "explicit")
+    if case["k"] is None:
+        sl["max_conditions"] = ("omitted", "none")
+    if not case["all"]:
+        sl["return_all"] = ("omitted", "false", "none")
+    return sl
+
+
+def _forms(case):
+    return F.forms_of(case, _slots(case))
+
+
 def cases(rng: random.Random, tier: str):
+    return [F.assign(c, _slots(c)) for c in _cases(rng, tier)]
+
+
+def _cases(rng: random.Random, tier: str):
     from .c04 import C_load_corpus  # noqa: F401
     out = [dict(c) for c in CORPUS] + _load_corpus()
     for _ in range(2200 if tier == "quick" else 14000):
@@ -100,22 +130,39 @@ def _load_corpus():
 
 def _call_ci(case):
     import networkx as nx
-    from y0.algorithm.conditional_independencies import _len_lex, get_conditional_independencies
+    from y0.algorithm.conditional_independencies import _len_lex, get_conditional_independencies, get_topological_policy
 
     g = case["g"]
-    graph = G.to_nx_mixed(g)
+    fm = _forms(case)
+    graph = F.build_graph(g, fm["ctor"], seed=len(g["di"]) * 13 + len(g["bi"]))
+    fault = F.constructor_fault(g, graph, fm["ctor"])
+    if fault:
+        return None, None, fault
     kw = {}
-    if case["policy"] == "len_lex":
-        kw["policy"] = _len_lex
-    if case["all"]:
-        kw["return_all"] = True
     try:
-        res = get_conditional_independencies(graph, max_conditions=case["k"], **kw)
+        if case["policy"] == "len_lex":
+            kw["policy"] = _len_lex
+        elif fm["policy"] == "none":
+            kw["policy"] = None
+        elif fm["policy"] == "explicit":
+            kw["policy"] = get_topological_policy(graph)
+        if case["all"]:
+            kw["return_all"] = True
+        elif fm["return_all"] != "omitted":
+            kw["return_all"] = False if fm["return_all"] == "false" else None
+        if fm["verbose"] != "omitted":
+            kw["verbose"] = False if fm["verbose"] == "false" else None
+        if case["k"] is not None or fm["max_conditions"] == "none":
+            kw["max_conditions"] = case["k"]
+        if fm["call"] == "keyword":
+            res = get_conditional_independencies(graph=graph, **kw)
+        else:
+            res = get_conditional_independencies(graph, **kw)
         order = None
         if case["policy"] == "topological":
             order = [G.vint(v) for v in graph.topological_sort()]
         return res, order, None
-    except (nx.NetworkXError, nx.NetworkXUnfeasible, KeyError, ValueError) as e:
+    except (nx.NetworkXError, nx.NetworkXUnfeasible, KeyError, ValueError, TypeError) as e:
         return None, None, type(e).__name__
 
 
@@ -150,7 +197,8 @@ def run_python(case):
     V = sorted(G.all_nodes(g))
     res, order, err = _call_ci(case)
     tags = {"kind": "ci", "n_nodes": len(V), "k": str(case["k"]), "policy": case["policy"], "all": case["all"],
-            "outcome": "err:" + err if err else "ok"}
+            "outcome": "err:" + err.split()[0] if err else "ok"}
+    tags.update(F.tags(_forms(case)))
     acyclic = O.is_acyclic(g) and all(u != v for u, v in g["di"] + g["bi"])
     if err:
         fail = f"get_conditional_independencies raised {err} on an ADMG" if acyclic else None
@@ -201,13 +249,29 @@ def _run_powerset(case):
     from y0.util.combinatorics import powerset
 
     s, start, stop = case["s"], case["start"], case["stop"]
-    got = [list(x) for x in powerset(s, start=start, stop=stop)]
+    fm = _forms(case)
+    it = F.container(s, fm["iterable"])
+    kw = {}
+    if fm.get("start") != "omitted":
+        kw["start"] = start
+    if fm.get("stop") != "omitted":
+        kw["stop"] = stop
+    try:
+        if fm["call"] == "keyword":
+            got = [list(x) for x in powerset(iterable=it, **kw)]
+        elif "start" in kw and "stop" in kw:
+            got = [list(x) for x in powerset(it, start, stop)]
+        else:
+            got = [list(x) for x in powerset(it, **kw)]
+    except Exception as e:  # noqa: BLE001 - powerset is total on finite iterables and integer bounds
+        return {"out": ["err"], "fail": f"powerset raised {type(e).__name__}: {str(e)[:100]}", "nontrivial": False,
+                "tags": dict({"kind": "powerset", "outcome": "err"}, **F.tags(fm))}
     n = len(s)
     hi = n if stop is None else min(stop - 1, n)
     want = [list(c) for r in range(start, hi + 1) for c in itt.combinations(s, r)]
     fail = None if got == want else f"powerset({s}, {start}, {stop}) = {got}, documented: sizes {start}..{hi}"
     return {"out": ["ok", [[str(x) for x in c] for c in got]], "fail": fail, "nontrivial": n >= 2,
-            "tags": {"kind": "powerset", "n": n, "stop": str(stop)}}
+            "tags": dict({"kind": "powerset", "n": n, "stop": str(stop)}, **F.tags(fm))}
 
 
 # ------------------------------------------------------------------------------------------ model side
@@ -238,7 +302,8 @@ def canon_model(case, rep):
 def _model_topo_order(case):
     """the sums of the topological policy are computed by the harness with the real graph's order on both sides"""
     try:
-        return [G.vint(v) for v in G.to_nx_mixed(case["g"]).topological_sort()]
+        g = case["g"]
+        return [G.vint(v) for v in F.build_graph(g, _forms(case)["ctor"], seed=len(g["di"]) * 13 + len(g["bi"])).topological_sort()]
     except Exception:
         return []
 
